@@ -189,7 +189,9 @@ def install(ctx):
 
 
 VALSETS = [[0, 1, 2, 3], [-3, -2, -1, 0, 0, 1, 2, 3], [0, 0, 0, 5, -5, 100, -7], list(range(-20, 21)), [0, 1], [0, -1, -2],
-           [0, 10 ** 6, -10 ** 6, 999999, 7]]
+           [0, 10 ** 6, -10 ** 6, 999999, 7],
+           # neighbours above 2**53 (float64 cannot tell them apart) and near the int64 limit
+           [0, 2 ** 53, 2 ** 53 + 1, 3, -(2 ** 53 + 2)], [0, 2 ** 60, 2 ** 60 + 1, -1, 10 ** 18 + 1, 10 ** 18 + 2], [2 ** 62, -(2 ** 62 + 1), 0, 1]]
 
 
 def gen_case(rng, tier, ctx, i):
